@@ -278,7 +278,7 @@ func init() {
 		Rule: "E1: (1) adversary-only action menu, invariant 'no browser holds uid=victim' on every reachable state; (2) full-knowledge menu, per-transition rule on first-factor and validate requests; classes = pending/complete/reject kinds hit",
 		Units: func(tier string) []engine.Unit {
 			scs := c02Scenarios(tier)
-			return e1Units(append(scs, configVariants(scs, tier, "faults:login(|-validate(|recover-end(|otplogin(", "err500", "nil-state", "nomount", "json")...))
+			return e1Units(append(scs, configVariants(scs, tier, "faults:login(|-validate(|recover-end(|otplogin(", "err500", "nil-state", "nomount", "json", "localizer")...))
 		},
 		Assumptions: []string{
 			"adversary model: knows the victim's password, owns accounts A (own TOTP secret / phone / recovery codes / OTPs) and N, controls two browsers, can wait 5/11/31 s; never reads the victim's phone, mailbox, TOTP secret or recovery codes",
